@@ -13,7 +13,12 @@ EXTENDS Integers, Sequences, FiniteSets, TLC, Json
 
 CONSTANTS Emit
 
-EntryPoints == {"SetEncodedObject", "RawObjectWriter", "LazyWriter", "WorktreeAdd", "ObjectHasher"}
+\* "Switched*": the same operations on ONE live filesystem.Storage handle that was created without an object
+\* format and switched to the row's format afterwards (Storage.SetObjectFormat - what a clone from a SHA-256
+\* remote does during the first negotiation) and is then used without reopening.  SwitchedReadBack: git writes
+\* the object into that directory, the switched handle reads it (id, type, size, bytes).
+EntryPoints == {"SetEncodedObject", "RawObjectWriter", "LazyWriter", "WorktreeAdd", "ObjectHasher",
+                "SwitchedSetEncodedObject", "SwitchedLazyWriter", "SwitchedReadBack"}
 Types       == {"blob", "tree", "commit", "tag"}
 Formats     == {"sha1", "sha256"}
 \* content classes of the property text; sizes are what the harness renders
